@@ -32,8 +32,8 @@ func TestBodyReuseAfterRedirect(t *testing.T) {
 		go func() {
 			defer wg.Done()
 			for it := 0; it < 120; it++ {
-				// every answer closes its connection (Connection: close, as many proxies/CDNs do), so each hop needs a new
-				// connection exactly like a redirect to another host; 2 redirects in a row (the hop limit), then the real answer
+				// ordinary keep-alive server; the 307 answers carry a small body (as most real servers' redirects and 401s do);
+				// 2 redirects in a row (the hop limit), then the real answer
 				var srv *httptest.Server
 				srv = httptest.NewServer(http.HandlerFunc(func(w http.ResponseWriter, r *http.Request) {
 					io.ReadAll(r.Body) // the whole body is consumed before the answer is written
@@ -42,12 +42,12 @@ func TestBodyReuseAfterRedirect(t *testing.T) {
 					if hop < 2 {
 						w.Header().Set("Location", fmt.Sprintf("%s?hop=%d", r.URL.Path, hop+1))
 						w.WriteHeader(307)
+						w.Write([]byte("moved\n"))
 						return
 					}
 					w.Header().Set("Content-Type", "application/vnd.git-lfs+json")
 					w.Write([]byte(`{"objects":[]}`))
 				}))
-				srv.Config.SetKeepAlivesEnabled(false)
 				c, _ := NewClient(lfshttp.NewContext(nil, nil, map[string]string{"lfs.url": srv.URL}))
 				req, _ := c.NewRequest("POST", c.Endpoints.Endpoint("upload", ""), "objects/batch", map[string]string{"operation": "upload", "pad": "xxxxxxxxxxxxxxxxxxxxxxxxxxxxxxxxxxxxxxxxxxxxxxxxxxxxxxxxxxxxxxxx"})
 				_, err := c.DoAPIRequestWithAuth("", req)
